@@ -1891,11 +1891,15 @@ func initializeMethodInfo() methodInfo {
 		var params *initializeParamsV2
 		if m != nil {
 			if err := internaljson.Unmarshal(m, &params); err != nil {
-				return nil, fmt.Errorf("unmarshaling %q into a %T: %w", m, params, err)
+				if nowrapinvalidparams == "1" {
+					return nil, fmt.Errorf("unmarshaling %q into a %T: %w", m, params, err)
+				}
+				// As in newMethodInfo: answer with -32602 ("invalid params").
+				return nil, fmt.Errorf("%w: unmarshaling %q into a %T: %w", jsonrpc2.ErrInvalidParams, m, params, err)
 			}
 		}
 		if params == nil {
-			return nil, fmt.Errorf(`missing required "params"`)
+			return nil, fmt.Errorf("%w: missing required \"params\"", jsonrpc2.ErrInvalidRequest)
 		}
 		return params.toV1(), nil
 	}
